@@ -11,7 +11,8 @@ RULE = ('lattice: for every (format table, record kind, field) of the four live 
         'hold distinct full-width sentinels; write_values_to_string then parse_string. record: every field of a '
         'record drawn at once from the same per-field lattice (Hypothesis). Non-trivial = the plain %-formatted '
         'target is within one column of its width or wider, or the target is None with both neighbours present; '
-        'distinct = distinct (table, kind, field, value) JSON.')
+        'distinct = distinct (table, kind, field, value) JSON.'
+        ' Also: every lattice value as the last one of a shorter list (trailing values left off); Hypothesis sequences of 2..6 records written through ONE file object (write_values) and read back through another (read_values).')
 ASSUMPTIONS = ['read side uses the read-function dictionary each format really uses '
                '(default for data/extra-precision/geometry tables, fortran for initial conditions)',
                'an all-blank string field counts as "nothing" (the library\'s string reader returns the blanks)']
@@ -118,6 +119,14 @@ def lattice(tier):
                         # itself does for incon, timestep and generation-table lines)
                         if i < len(fmts) - 1:
                             yield {'k': 'one', 'table': tname, 'kind': kind, 'field': i, 'value': v, 'short': True}
+                        # the same number as a numpy scalar (what array-derived models hand to the writer), where it
+                        # fills or overflows its columns
+                        w_, d_, typ_, _l = spec_of(f)
+                        if typ_ in 'efgd' and v is not None and len(('%%%s' % f) % v) >= w_:
+                            for npt in (('float32', 'float64') if typ_ != 'd' else ('int64', 'int32')):
+                                if npt == 'int32' and abs(v) >= 2 ** 31: continue
+                                if npt == 'float32' and v != 0 and not (1e-37 < abs(v) < 3e38): continue
+                                yield {'k': 'one', 'table': tname, 'kind': kind, 'field': i, 'value': v, 'np': npt}
     return g
 
 
@@ -292,6 +301,14 @@ def run_case(case, R):
         vals = list(case['values'])
         targets = set(range(len(vals)))
     total = sum(spec_of(f)[0] for f in fmts)
+    given = None
+    if case.get('np'):
+        import numpy as np
+        R.label('numpy:' + case['np'])
+        given = list(vals)
+        i = case['field']
+        given[i] = getattr(np, case['np'])(vals[i])
+        vals[i] = float(given[i]) if case['np'].startswith('float') else int(given[i])      # the number that was handed over
     keep = (case['field'] + 1) if case.get('short') else case.get('keep')
     if keep is not None:
         R.label('short-list')
@@ -311,7 +328,7 @@ def run_case(case, R):
             elif n >= w - 1: R.label('at-width:' + typ); R.nontrivial()
             if typ in 'ef' and v != 0 and (abs(v) >= 1e100 or abs(v) < 1e-99): R.label('3-digit-exponent')
     try:
-        s = p.write_values_to_string(vals, kind)
+        s = p.write_values_to_string(given if given is not None else vals, kind)
     except (ValueError, OverflowError) as e:
         # "fails loudly": acceptable only if something really did not fit
         fit = all(v is None or spec_of(f)[2] == 'x' or len(('%%%s' % f) % v) <= spec_of(f)[0]
